@@ -372,7 +372,14 @@ def _comp(seq, k: tuple, flags: int) -> tuple:
                 out = cat(chars({_BINDS[av[0]]}), out)
             else:
                 p = av[-1]
-                out = _comp(p, out, flags)
+                # scoped inline flags: (?i:...) / (?-i:...)
+                sub_flags = flags
+                if len(av) == 4:
+                    sub_flags = (flags | av[1]) & ~av[2]
+                if sub_flags == flags:
+                    out = _comp(p, out, flags)
+                else:
+                    out = cat(_comp(p, EPS, sub_flags), out)
         elif op in (sre_c.MAX_REPEAT, sre_c.MIN_REPEAT) or str(op) == "POSSESSIVE_REPEAT":
             lo, hi, sub = av
             if _has_lookaround(sub):
@@ -525,16 +532,19 @@ def prefix_lang(pattern: str, flags: int = 0) -> tuple:
 
 
 def has_cased_literal(pattern: str, flags: int = 0) -> Optional[str]:
-    """a cased literal/range occurring in the pattern (None if the pattern is case-neutral)."""
+    """a cased literal/range occurring in the pattern where IGNORECASE is not in effect - neither through `flags`, a global
+    `(?i)` nor a scoped `(?i:...)` (None if the pattern is case-neutral)."""
     p = parse(pattern, flags)
 
-    def walk(seq) -> Optional[str]:
+    def walk(seq, ic: bool) -> Optional[str]:
         for op, av in seq:
             if op in (sre_c.LITERAL, sre_c.NOT_LITERAL):
                 ch = chr(av)
-                if ch.lower() != ch.upper():
+                if not ic and ch.lower() != ch.upper():
                     return ch
             elif op is sre_c.IN:
+                if ic:
+                    continue
                 for o2, a2 in av:
                     if o2 is sre_c.LITERAL and chr(a2).lower() != chr(a2).upper():
                         return chr(a2)
@@ -547,23 +557,29 @@ def has_cased_literal(pattern: str, flags: int = 0) -> Optional[str]:
                             return f"{chr(lo)}-{chr(hi)}"
             elif op is sre_c.BRANCH:
                 for a in av[1]:
-                    r = walk(a)
+                    r = walk(a, ic)
                     if r:
                         return r
             elif op is sre_c.SUBPATTERN:
-                r = walk(av[-1])
+                sub_ic = ic
+                if len(av) == 4:
+                    if av[1] & re.IGNORECASE:
+                        sub_ic = True
+                    if av[2] & re.IGNORECASE:
+                        sub_ic = False
+                r = walk(av[-1], sub_ic)
                 if r:
                     return r
             elif op in (sre_c.MAX_REPEAT, sre_c.MIN_REPEAT):
-                r = walk(av[2])
+                r = walk(av[2], ic)
                 if r:
                     return r
             elif op in (sre_c.ASSERT, sre_c.ASSERT_NOT):
-                r = walk(av[1])
+                r = walk(av[1], ic)
                 if r:
                     return r
         return None
-    return walk(p)
+    return walk(p, bool(p.state.flags & re.IGNORECASE))
 
 
 def split_at_group(pattern: str, flags: int, group: int) -> Tuple[tuple, tuple]:
@@ -577,3 +593,16 @@ def split_at_group(pattern: str, flags: int, group: int) -> Tuple[tuple, tuple]:
             before = [it for it in items[:i]]
             return _comp(before, EPS, p.state.flags), _comp(items[i:], EPS, p.state.flags)
     raise Unsupported(f"capturing group {group} is not a top-level item of the pattern")
+
+
+def group_starting_with(pattern: str, flags: int, first: str) -> Tuple[int, Optional[str]]:
+    """(number, name) of the top-level capturing group whose text starts with the literal character `first` - the group is
+    found by what it captures, not by its position or spelling"""
+    p = parse(pattern, flags)
+    names = {v: k for k, v in p.state.groupdict.items()}
+    for op, av in p:
+        if op is sre_c.SUBPATTERN and av[0] is not None:
+            sub = list(av[-1])
+            if sub and sub[0][0] is sre_c.LITERAL and chr(sub[0][1]) == first:
+                return av[0], names.get(av[0])
+    raise Unsupported(f"no top-level capturing group starts with {first!r}")
